@@ -592,19 +592,11 @@ func (n *BlockNode) Render(w io.Writer, ctx *RenderContext) error {
 	// Determine which content to use - from context blocks or default
 	var content []Node
 
-	// Store the current block content as parent content if needed
-	// This is critical for multi-level inheritance
-	if _, exists := ctx.parentBlocks[n.name]; !exists {
-		// First time we've seen this block - store its original content
-		// This needs to happen for any block, not just in extending templates
-		if blockContent, ok := ctx.blocks[n.name]; ok {
-			// Store the content from blocks
-			ctx.parentBlocks[n.name] = blockContent
-		} else {
-			// Otherwise store the default body
-			ctx.parentBlocks[n.name] = n.body
-		}
-	}
+	// Make sure this block is in the chain of definitions that parent() walks. Blocks at
+	// the top level of a template were registered by RootNode.Render, most-derived first;
+	// a block nested inside another construct of the layout is seen here for the first
+	// time and is the last definition of its name.
+	ctx.parentBlocks[n.name] = appendBlockDef(ctx.parentBlocks[n.name], n)
 
 	// Now get the content to render: an override is whatever a child registered under
 	// this name, even an empty body; only an absent entry falls back to the default
@@ -615,9 +607,11 @@ func (n *BlockNode) Render(w io.Writer, ctx *RenderContext) error {
 		content = n.body
 	}
 
-	// Save the current block for parent() function support
-	previousBlock := ctx.currentBlock
+	// Save the current block for parent() function support; what is rendered here is
+	// the most-derived definition, level 0 of the chain
+	previousBlock, previousLevel := ctx.currentBlock, ctx.blockLevel
 	ctx.currentBlock = n
+	ctx.blockLevel = 0
 
 	// Create an isolated context for rendering this block
 	// This prevents parent() from accessing the wrong block context
@@ -633,7 +627,22 @@ func (n *BlockNode) Render(w io.Writer, ctx *RenderContext) error {
 
 	// Restore the previous block
 	ctx.currentBlock = previousBlock
+	ctx.blockLevel = previousLevel
 	return nil
+}
+
+// appendBlockDef adds a block definition at the end of a chain of definitions unless it is
+// already part of it. The chain may be shared with another render context, so it is never
+// extended in place.
+func appendBlockDef(chain []Node, block *BlockNode) []Node {
+	for _, def := range chain {
+		if def == Node(block) {
+			return chain
+		}
+	}
+	defs := make([]Node, len(chain), len(chain)+1)
+	copy(defs, chain)
+	return append(defs, block)
 }
 
 // ExtendsNode represents an extends directive
@@ -715,25 +724,11 @@ func (n *ExtendsNode) Render(w io.Writer, ctx *RenderContext) error {
 	// Ensure the context is released even if an error occurs
 	defer parentCtx.Release()
 
-	// First, copy any existing parent blocks to maintain the inheritance chain
-	// This allows for multi-level parent() calls to work properly
+	// First, hand over the chain of block definitions collected so far. The parent
+	// template appends its own definitions behind them when its root is rendered, so that
+	// parent() finds, for every level, the next definition up the chain
 	for name, nodes := range ctx.parentBlocks {
-		// Copy to the new context to preserve the inheritance chain
 		parentCtx.parentBlocks[name] = nodes
-	}
-
-	// Extract blocks from the parent template and store them as parent blocks
-	// for any blocks defined in the child but not yet in the parent chain
-	if rootNode, ok := parentTemplate.nodes.(*RootNode); ok {
-		for _, child := range rootNode.Children() {
-			if block, ok := child.(*BlockNode); ok {
-				// If we don't already have a parent for this block,
-				// use the parent template's block definition
-				if _, exists := parentCtx.parentBlocks[block.name]; !exists {
-					parentCtx.parentBlocks[block.name] = block.body
-				}
-			}
-		}
 	}
 
 	// Finally, copy all block definitions from the child context
@@ -1492,6 +1487,10 @@ func (n *RootNode) Render(w io.Writer, ctx *RenderContext) error {
 	// Needed to ensure all blocks are available for parent() calls
 	for _, child := range n.children {
 		if block, ok := child.(*BlockNode); ok {
+			// Every definition joins the chain that parent() walks, behind the
+			// definitions of the templates that extend this one
+			ctx.parentBlocks[block.name] = appendBlockDef(ctx.parentBlocks[block.name], block)
+
 			// Only register blocks that haven't been defined by a child template
 			if _, defined := ctx.blocks[block.name]; !hasChildBlocks || !defined {
 				// Register the block
